@@ -78,6 +78,11 @@ def run_k(cfg):
             # the earlier raw request (same bytes, permissive validator) is answered by a conforming frame
             return [(D0, ('data', wire.tcp_read_resp(req[:2], 0xF7, bytes(10)) if framing == 'tcp' else wire.rtu_read_resp(0xF7, bytes(10))))]
         i -= off
+        if cfg.get('stale_head') and i == k - 1:
+            # the transmission before gets only the head of a (long) read answer - missing exactly as many bytes as an
+            # exception frame has - and times out; the exception frame answers the NEXT transmission
+            full = wire.tcp_read_resp(req[:2], 0xF7, bytes(250)) if framing == 'tcp' else wire.rtu_read_resp(0xF7, bytes(250))
+            return [(D0, ('data', full[:len(full) - len(exc_frame(framing, kind, code, req))]))]
         if i == k:
             if head:
                 full = wire.tcp_read_resp(req[:2], 0xF7, bytes(250)) if framing == 'tcp' else wire.rtu_read_resp(0xF7, bytes(250))
@@ -154,6 +159,8 @@ def job(cfgs):
                 cls += '/host-given-as-a-name'
             if cfg.get('stall'):
                 cls += '/event-loop-blocked-past-the-timeout'
+            if cfg.get('stale_head'):
+                cls += '/after-an-attempt-that-got-a-fragment-only'
             if cfg.get('mbap'):
                 cls += f"/unreliable-length-field:{cfg['mbap']}"
             if not any(c == clause for c, _ in v2):
@@ -416,6 +423,13 @@ def run(tier, seed, rep):
                     for k in (0, 1):
                         for host in ('inverter.local', '10.0.2'):
                             cfgs.append(dict(transport=tr, ka=ka, T=1, R=1, k=k, kind=kind, code=code, host=host))
+    # the attempt before received a fragment only (missing exactly an exception frame's length) and timed out
+    for tr in ('udp', 'tcp'):
+        for ka in (False, True):
+            for code in (1, 2, 6, 0x55):
+                for R in (1, 2):
+                    for k in range(1, R + 1):
+                        cfgs.append(dict(transport=tr, ka=ka, T=1, R=R, k=k, kind='read125', code=code, stale_head=True))
     # the event loop is blocked while the exception frame arrives, until after the request's timer is due
     for tr in ('udp', 'tcp'):
         for ka in (False, True):
